@@ -170,6 +170,17 @@ theorem tie_spread_count : Gen.C05.efunvClearsSpreadCountBeforeTypeCheck = true 
 theorem consume_clears_spread_count (m : M) : ∃ m', execCore .consume m = .ok m' ∧ m'.numVarargs = 0 :=
   ⟨{ m with numVarargs := 0 }, by simp only [execCore], rfl⟩
 
+/-- restore_context unwinds the control stack only when a frame was pushed since the recovery point was set
+    (the model: `if m1.cs.length > e.saveCsp then … popFrame … else some m1`) -/
+theorem tie_restore_frameless : Gen.C05.restoreTestsCspBeforeUnwinding = true := by decide
+
+/-- **frameless error**: when no frame was pushed since the recovery point was set (and no value either), restore_context
+    leaves the control stack and ALL frame registers exactly as they are — it does not read the stale frame above csp -/
+theorem restoreContext_frameless (e : Ctx) (m : M) (hc : m.cs.length = e.saveCsp) (hv : m.vs.length = e.saveSp) :
+    ∃ m', restoreContext e m = .ok m' ∧ m'.cs = m.cs ∧ m'.r = m.r ∧ m'.vs = m.vs := by
+  refine ⟨{ m with cg := e.saveCg, loadDepth := e.saveLd, restrictDestruct := e.saveRd, lastVerb := e.saveVerb, numVarargs := 0 }, ?_, rfl, rfl, rfl⟩
+  simp [restoreContext, hc, hv, popN]
+
 /-- restore_context clears the spread count (regenerated: the statement is there) -/
 theorem tie_restore_clears_spread_count : Gen.C05.restoreClearsSpreadCount = true := by decide
 
